@@ -333,6 +333,17 @@ def run_collection(case, rec):
     dim = len(ms[0]["pos"])
     ds = [make_droplet(m) for m in ms]
     label = str(case)
+    # every class can be created from a position and a volume: the radius is that of the sphere of this volume
+    from droplets import droplets as dmod
+    from droplets.tools import spherical as sp_
+
+    cls_ = getattr(dmod, ms[0]["cls"])
+    v_new = case["new_volume"]
+    fv = common.monitored(rec, "from_volume", cls_.from_volume, np.asarray(ms[0]["pos"], float), v_new)
+    if rec.check(fv.ok, "no-exception", f"{ms[0]['cls']}.from_volume raised {common.exc_text(fv.exc) if fv.exc else ''}; {label}"):
+        r_exp = float(sp_.radius_from_volume(v_new, dim))
+        rec.check(type(fv.result) is cls_ and abs(fv.result.radius - r_exp) <= 1e-13 * r_exp, "from-volume",
+                  f"{ms[0]['cls']}.from_volume(.., {v_new}) has radius {fv.result.radius!r}, the sphere of that volume has {r_exp!r}; {label}")
     own = common.monitored(rec, "droplet.volume", lambda: [float(d.volume) for d in ds])
     if not own.ok and isinstance(own.exc, NotImplementedError):
         rec.count("droplet_volume_not_implemented")  # axisymmetric perturbed droplets
